@@ -220,9 +220,25 @@ func RulesFor(own, held *Node, ownType, heldType reflect.Type) []Rule {
 	return out
 }
 
-// ctorDerived: options of a held configuration that the constructor computes instead of copying (table, tied by the
-// correspondence run like ctorConstraint).
+// ctorDerived: options of a held configuration that the constructor computes instead of keeping what was decoded
+// (a table like ctorConstraint, tied by the correspondence run: a derived option missing here is reported as
+// option-not-applied on the unchanged tree):
+//
+//	providers/http/config.Config.Decoder   set from the registered name by the providers uri, uripost, raw, http/json
+//	                                       (components/providers/http/import.go); docs/eng/providers.md
+//	guns/http.GunConfig dial.dns-cache     switched off by PreResolveTargetAddr once the target is resolved to an IP
+//	                                       (components/guns/http/base.go)
+//	providers/grpc/grpcjson.Config.File    replaced by source.path when that one is written (grpcjson.NewProvider)
 func ctorDerived(heldType, ownType reflect.Type, path []string) bool {
+	p := strings.Join(path, ".")
+	switch heldType.PkgPath() + "." + heldType.Name() {
+	case pandoraPkg + "/components/providers/http/config.Config":
+		return p == "Decoder"
+	case pandoraPkg + "/components/guns/http.GunConfig":
+		return p == "dial.dns-cache"
+	case pandoraPkg + "/components/providers/grpc/grpcjson.Config":
+		return p == "File"
+	}
 	return false
 }
 
